@@ -1,23 +1,24 @@
 (* C16 -- Decorators are transparent except for what they are meant to change.
    Property theorems only; every one is closed by `exact` of a lemma in proofs/DecoratorsProofs.v and
-   followed by Print Assumptions.  Model: model/Decorators.v (exact rationals; stacks of any depth and
-   order of PoolDecorator / Logger / Standardiser / Buffer; CPython's `%` parser for a mapping operand). *)
+   followed by Print Assumptions.  Model: model/Decorators.v -- stacks of any depth and order of
+   PoolDecorator (Plain), Logger, and OPAQUE levels (Standardiser, Buffer, anything that only re-defines
+   `demand`): what an opaque level does with demand is an arbitrary script, so every theorem below holds
+   whatever Standardiser and Buffer do to demand; exact rationals; CPython's `%` parser for a mapping. *)
 From Coq Require Import ZArith QArith List Bool NArith String.
 From Cobald Require Import kit.QKit model.Decorators proofs.DecoratorsProofs.
 Import ListNotations.
 Close Scope Q_scope.
 Close Scope string_scope.
 
-(* supply, utilisation, allocation read through ANY stack (any depth, any order, any stored state) are
-   the pool's *)
+(* supply, utilisation, allocation read through ANY stack (any depth, any order, any scripts) are the pool's *)
 Theorem C16_reads_transparent : forall (st : stack) (p : pool) (a : attr), read_through st p a = attr_of a p.
 Proof. exact reads_transparent. Qed.
 Print Assumptions C16_reads_transparent.
 
 (* a demand write through any stack leaves the pool's supply / utilisation / allocation alone and never
-   changes the stack's composition (kinds, logger configuration, standardiser parameters) *)
-Theorem C16_write_changes_nothing_else : forall st p v,
-  let '(e, st', p') := write st p v in same_attrs p p' /\ shape st' = shape st.
+   changes the stack's composition (kinds, logger names / levels / templates) *)
+Theorem C16_write_changes_nothing_else : forall st p v e st' p', write st p v = Some (e, st', p') ->
+  same_attrs p p' /\ shape st' = shape st.
 Proof. exact write_preserves. Qed.
 Print Assumptions C16_write_changes_nothing_else.
 
@@ -31,37 +32,45 @@ Theorem C16_reads_transparent_after_any_history : forall ops st p,
 Proof. exact run_attrs. Qed.
 Print Assumptions C16_reads_transparent_after_any_history.
 
-(* through plain decorators and Loggers (any number, any order): the demand read is the pool's, the
-   stack is unchanged by reading and writing, the pool receives exactly v (one PoolWrite, last), and
-   every Logger emitted one record carrying v and the pool's values from before the write *)
+(* through plain decorators and Loggers (any number, any order): the demand read is the pool's, reading
+   and writing leave the stack as it is, the pool receives exactly v as the last effect, and every Logger
+   emits, when the write arrives, one record carrying v and the pool's values from before the write *)
 Theorem C16_plain_and_logger_pass_demand : forall st p v, pl_only st = true ->
-  read_demand st p = (p_demand p, st)
-  /\ write st p v = (pl_records st p v ++ [PoolWrite v], st, set_demand p v).
+  read_demand st p = Some (p_demand p, st)
+  /\ write st p v = Some (pl_effects st p v, st, set_demand p v).
 Proof. exact plain_and_logger_pass_demand. Qed.
 Print Assumptions C16_plain_and_logger_pass_demand.
 
-(* a Logger over ANY target stack: its record is the first effect of the write -- on its logger name and
-   level, with its template, the new value, and demand / supply / utilisation / allocation as read from
-   the target before the write; then the write goes on through the target *)
+(* a Logger over ANY target stack: when a write arrives, its record is emitted first -- on its logger name
+   and level, with its template, the new value, and demand / supply / utilisation / allocation as read
+   from the target before the write -- and then the same value is written to the target *)
 Theorem C16_one_record_per_write : forall n l m r p v,
   write (LoggerD n l m :: r) p v =
-    let target_after_read := snd (read_demand r p) in
-    let '(e, r', p') := write target_after_read p v in
-    (Log n l m (mkFields v (fst (read_demand r p)) (p_supply p) (p_util p) (p_alloc p) (p_alloc p) (List.length r)) :: e,
-     LoggerD n l m :: r', p').
+    match read_demand r p with
+    | Some (dm, target_after_read) =>
+        match write target_after_read p v with
+        | Some (e, r', p') =>
+            Some (Arrive (List.length r) v
+                  :: Log n l m (mkFields v dm (p_supply p) (p_util p) (p_alloc p) (p_alloc p) (List.length r))
+                  :: e, LoggerD n l m :: r', p')
+        | None => None
+        end
+    | None => None
+    end.
 Proof. exact logger_write. Qed.
 Print Assumptions C16_one_record_per_write.
 
-(* the effects of one write through any stack: exactly one record per Logger above the first Buffer, in
-   order from the outside in, all before the pool is written; the pool is written unless a Buffer holds
-   the value *)
-Theorem C16_write_effects : forall st p v, write_shape (shape st) (fst (fst (write st p v))).
-Proof. exact write_records. Qed.
-Print Assumptions C16_write_effects.
+(* one write through any stack, whatever the opaque levels do (block, transform, repeat): for the level
+   with j levels under it, records with that target = writes arriving there if it is a Logger, else 0 *)
+Theorem C16_records_match_arrivals : forall st p v e st' p', write st p v = Some (e, st', p') ->
+  forall j, count (is_log_at j) e = if logger_at (shape st) j then count (is_arrive j) e else 0.
+Proof. exact records_match_arrivals. Qed.
+Print Assumptions C16_records_match_arrivals.
 
-(* over any history: number of records = number of writes x number of Loggers a write reaches *)
-Theorem C16_records_through_stacks : forall ops st p,
-  total_logs (fst (fst (run st p ops))) = List.length (filter is_write ops) * List.length (reached (shape st)).
+(* the same over any history of operations *)
+Theorem C16_records_through_stacks : forall ops st p j,
+  run_count (is_log_at j) (fst (fst (run st p ops)))
+  = if logger_at (shape st) j then run_count (is_arrive j) (fst (fst (run st p ops))) else 0.
 Proof. exact records_through_stacks. Qed.
 Print Assumptions C16_records_through_stacks.
 
@@ -78,20 +87,29 @@ Print Assumptions C16_rejected_only_for_unknown_field.
 
 Theorem C16_logger_not_constructed : forall name level msg inner p k,
   reaches_key (pct_scan test_fields msg) k -> known_field k = false ->
-  fst (construct (SLogger name level msg) inner p) = inl CRuntime.
+  fst (construct (SLogger name level msg) inner p) = BErr CRuntime.
 Proof. exact construct_rejects. Qed.
 Print Assumptions C16_logger_not_constructed.
 
-(* non-vacuity *)
+(* non-vacuity: a Logger over a Standardiser-like level (clamps 9 to 5, reads its target once on get)
+   over a Logger over the pool; the hypotheses of the template theorems; outcome classes *)
 Example C16_hypotheses_satisfiable :
-  let st := [LoggerD 100 20 (s2n "%(value)s"%string); Plain; LoggerD 0 30 (s2n "%(demand).2f %(consumption)s"%string)] in
   let p := mkPool 3%Q 5%Q (1#2)%Q (3#4)%Q in
-  pl_only st = true
-  /\ reached (shape (LoggerD 7 10 [] :: StandardiserD (mkSP None None 1%Q None None) 0%Q :: BufferD 0%Q :: st)) = [(7%N, 10%N, [])]
+  let st := [LoggerD 100 20 (s2n "%(value)s"%string);
+             OpaqueD 3 [EGet 1 3%Q; ESet 9%Q [ASet 5%Q]];
+             LoggerD 0 30 (s2n "%(demand).2f %(consumption)s"%string)] in
+  pl_only [Plain; LoggerD 0 30 []; Plain] = true
+  /\ (exists e st' p', write st p 9%Q = Some (e, st', p')
+        /\ p_demand p' = 5%Q /\ count (is_log_at 2) e = 1%nat /\ count (is_log_at 0) e = 1%nat
+        /\ count (is_arrive 1) e = 1%nat /\ count (is_log_at 1) e = 0%nat)
   /\ reaches_key (pct_scan test_fields (s2n "%(value)s [%(supplY)s]"%string)) (s2n "supplY"%string)
   /\ known_field (s2n "supplY"%string) = false
   /\ logger_init (s2n "%(value)s %(nope"%string) = RaisesValue
   /\ logger_init (s2n "%(target)d"%string) = RaisesType
   /\ logger_init (s2n "%(consumption)s%%"%string) = Accepted
   /\ warnings_of (s2n "%(consumption)s%%"%string) = 1%nat.
-Proof. cbv zeta. repeat split; vm_compute; auto. Qed.
+Proof.
+  cbv zeta. split; [reflexivity|]. split.
+  - eexists _, _, _. split; [vm_compute; reflexivity|]. repeat split.
+  - repeat split; vm_compute; auto.
+Qed.
